@@ -336,10 +336,25 @@ def one_history(ctx, spec, meta, config, eager, rng=None, ops=None, n_ops=None):
                 full.pop('poison')
                 init = wb.fresh_values(clean)
                 run.model = hist.Recorder(hist.obtain(config, full, ctx.tmpdir, 'm', init), config)
+                probe = spec.get('poison_probe')
+                if probe:
+                    full.pop('poison_probe', None)
+                    scratch = wb.compile_mem(clean)
+                    wb.outcome(scratch.evaluate, probe[0])
+                    needed = [a.address for a in scratch.cell_map[probe[0]].formula.needed_addresses]
+                    for a in needed:
+                        run.model.evaluate(a)
+                    run.ops.append(['pre-poison', needed])
                 out = run.model.evaluate(poison)
                 run.ops.append(['eval-poison', poison])
                 run.has_poison = True
                 ctx.count('failed_builds' if out[0] == 'x' else 'poison_did_not_fail')
+                if probe:
+                    ctx.count('failed_builds_with_everything_else_already_built')
+                    cur = run.current_value(probe[1])
+                    new_v = 41.5 if wb.norm(cur) != wb.norm(41.5) else 7
+                    for op in (['eval', probe[0]], ['set', probe[1], new_v], ['eval', probe[0]]):
+                        run.apply(op)
     else:
         run = Run(ctx, spec, meta, config, eager, ctx.tmpdir)
     if run.init_exc:
@@ -352,7 +367,7 @@ def one_history(ctx, spec, meta, config, eager, rng=None, ops=None, n_ops=None):
                 break
     else:
         for op in ops:
-            if op[0] not in ('final', 'eval-poison'):
+            if op[0] not in ('final', 'eval-poison', 'pre-poison'):
                 run.apply(op)
     if not run.found:
         run.finish()
@@ -416,6 +431,13 @@ def run(ctx):
             spec = dict(spec, sheets=[[s_, dict(c)] for s_, c in spec['sheets']])
             spec['sheets'][0][1]['A20'] = f'={p1.rsplit("!", 1)[1]}+{p2.rsplit("!", 1)[1]}+[1]Other!A1'
             spec['poison'] = f'{first_sheet}!A20'
+            feeding = sorted(a for a in wbgen.influencers(meta, p1) if a in meta['inputs'] and
+                             not a.startswith(wbgen.SD + '!'))
+            if i % 10 == 0 and feeding:
+                # everything the first good precedent reads is in the model before the build fails, and nothing new
+                # is built between the failure and the probe: the edges of the good precedent, queued when the build
+                # failed, are still to be made
+                spec['poison_probe'] = [p1, rng.choice(feeding)]
         one_history(ctx, spec, meta, config, eager, rng=rng, n_ops=rng.randint(12, 25))
 
 
